@@ -129,10 +129,14 @@ Theorem C07_normalisation_is_neutral env m : eval_markers env (norm_l m) = eval_
 Proof. exact (eval_norm_l env m). Qed.
 Print Assumptions C07_normalisation_is_neutral.
 
-(* 8. totality (the statement's "evaluation has the boolean value ... else it raises UndefinedComparison" leaves no third outcome):
-      for every accepted marker, under every environment whose detected part defines the eleven variables and whose supplied part
-      is typed (None only for extra), evaluate() returns a bool or raises UndefinedComparison - none of the four ECrash sources of
-      the model (KeyError / None operand, an exception out of Specifier.contains, a bad connective, a failing repair) is reachable *)
+(* 8. totality ON THE MODEL: for every accepted marker, under every environment whose detected part defines the eleven variables and
+      whose supplied part is typed (None only for extra), the model of evaluate() returns a bool or UndefinedComparison - none of its four
+      ECrash sources (KeyError / None operand, an exception out of Specifier.contains, a bad connective, a failing repair) is reachable.
+      What this does NOT cover on the real code: the model has no digit limit (finding D10) and no recursion limit (finding D44).  A
+      version-like operand with a run of more than 4300 digits makes the real Version() raise InvalidVersion (since /repo 71d4b23; a bare
+      ValueError escaped before), which _eval_op catches, so the real code answers with the STRING operator (or UndefinedComparison for
+      ~= / ===) where the model answers by version comparison: the answers can differ there (streams digit-limit*, matcher match_c07_d10),
+      but no exception other than UndefinedComparison escapes.  A marker nested about 490 parentheses deep raises RecursionError. *)
 Theorem C07_evaluate_total s m defaults ov : Marker s = MOk m -> detects_all defaults -> typed ov ->
   (exists b, evaluate m defaults ov = EBool b) \/ evaluate m defaults ov = EUndef.
 Proof. exact (MkTotalP.evaluate_total s m defaults ov). Qed.
@@ -162,8 +166,9 @@ Theorem C07_operator_read_back (o rhs : str) sp : In o op_alts -> SpecContains.S
      (o = [61;61] /\ SpecContains.sp_op sp = SpecParse.OArb)).
 Proof. exact (MkOpP.operator_read_back o rhs sp). Qed.
 Print Assumptions C07_operator_read_back.
-(* the three absorbing cases by name (the code does this; whether PEP 508 wants a string comparison there is recorded as a finding
-   candidate in the report: python_version > "=3.8" is evaluated as python_version >= "3.8") *)
+(* the three absorbing cases by name - definitional: "<" ++ "=V" and "<=" ++ V are the same list, so the only content is that the
+   fallback uses the WRITTEN operator (the code does this: python_version > "=3.8" is evaluated as python_version >= "3.8"; a judgement
+   call against PEP 508's "both operands are versions", deliberately not registered as a finding) *)
 Theorem C07_absorbing_cases lhs v :
   eval_op lhs [60] (61 :: v) = match SpecContains.Specifier ([60;61] ++ v), SpecModel.Version lhs with
                                | Some _, Some _ => eval_op lhs [60;61] v | _, _ => string_op lhs [60] (61 :: v) end /\
